@@ -472,14 +472,100 @@ func genE2ESpec(r *rand.Rand) e2eSpec {
 
 func runE2E(c *kit.Ctx) {
 	e2eKnobs()
-	n := c.N(48, 4000)
+	if c.Mine(0, "probe-stale-delivery") {
+		runStaleProbe(c)
+	}
+	n := c.N(30, 4000)
 	for i := 0; i < n; i++ {
 		id := fmt.Sprintf("e%d", i)
-		if !c.Mine(i, id) {
+		if !c.Mine(i+1, id) {
 			continue
 		}
 		runE2ECase(c, id)
 	}
+}
+
+// probePeer answers its first body request completely, answers the second request with bodies
+// that belong to something else (as a late answer to an expired request would), and is silent
+// afterwards.
+type probePeer struct {
+	e2ePeer
+	nreq  int32
+	first [][]*types.Transaction
+}
+
+func (p *probePeer) RequestBodies(hashes []common.Hash) error {
+	switch atomic.AddInt32(&p.nreq, 1) {
+	case 1:
+		var ids []int
+		for _, hs := range hashes {
+			ids = append(ids, p.h.ch.idOf[hs])
+		}
+		p.first, _ = buildResponse(p.r, p.h.ch, ids, rFull)
+		return p.h.d.DeliverBodies(p.id, p.first)
+	case 2:
+		// an answer that does not belong to the new request (a late answer to an older request looks
+		// like this; a foreign list makes sure it cannot match by coincidence)
+		return p.h.d.DeliverBodies(p.id, [][]*types.Transaction{garbageList(p.r)})
+	}
+	return nil
+}
+
+// runStaleProbe is an OBSERVATION, not an oracle: it records whether a stale delivery leaves the
+// peer flagged busy with no request in the queue (so that nothing can expire and nothing is
+// assigned any more while the peer stays connected). It never reports a violation: the property's
+// liveness clause presupposes a peer that answers what it is asked, and this peer does not.
+func runStaleProbe(c *kit.Ctx) {
+	c.Begin("probe-stale-delivery", nil)
+	r := c.Rand("probe-stale-delivery")
+	sp := e2eSpec{Chain: chainSpec{N: 10, NLists: 3}, Peers: 1, Profiles: []int{0}, HdrProfiles: []int{0}, Have: []int{10}}
+	ch := genChain(r, sp.Chain, 1)
+	rec := &recChain{ch: ch, rc: &resultChecker{ch: ch}, db: youdb.NewMemDatabase()}
+	h := &e2eHarness{c: c, sp: sp, ch: ch, rec: rec, dropped: map[string]bool{}, counts: map[string]int{}}
+	h.master.Store("")
+	h.d = downloader.New(rec, nil, rec.db, h.drop, new(event.TypeMux))
+	defer h.d.Terminate()
+	pp := &probePeer{e2ePeer: e2ePeer{h: h, id: peerName(0), have: 10, r: r}}
+	h.d.RegisterPeer(pp.id, pp)
+	h.master.Store(pp.id)
+	rec.newSync()
+	done := make(chan error, 1)
+	_, num := pp.Head()
+	go func() { done <- h.d.Synchronise(pp.id, num, downloader.FullSync) }()
+	// sample for 3 x the request TTL ceiling (1.5 s): a stalled request would have expired by then
+	stuck, returned := 0, false
+	for i := 0; i < 45 && !returned; i++ {
+		select {
+		case <-done:
+			returned = true
+		case <-time.After(100 * time.Millisecond):
+			if len(h.d.VerifBusyWithoutRequest()) > 0 {
+				stuck++
+			} else {
+				stuck = 0
+			}
+		}
+	}
+	imported := rec.height()
+	if !returned {
+		h.drop(pp.id) // the master disconnects: ends the sync
+		select {
+		case <-done:
+		case <-time.After(e2eWatchdog()):
+			c.EndInconclusive("watchdog: Synchronise did not return after the master disconnected")
+			return
+		}
+	}
+	if os.Getenv("VERIF_C18_DUMP") != "" {
+		fmt.Fprintf(os.Stderr, "probe: returned=%v stuck=%d imported=%d nreq=%d\n", returned, stuck, imported, atomic.LoadInt32(&pp.nreq))
+	}
+	if !returned && stuck >= 30 {
+		c.Count("probe_stale_delivery_peer_left_busy_without_request", 1)
+		c.Note(fmt.Sprintf("observation (not a violation): after the only peer answered a body request with bodies that match none of the requested headers (stale delivery), it stayed flagged busy with no request in the queue for >3 s (3 request TTLs); Synchronise neither progressed (%d of 10 blocks imported) nor timed out until the peer disconnected", imported))
+	} else {
+		c.Count("probe_stale_delivery_recovered", 1)
+	}
+	c.End("")
 }
 
 func runE2ECase(c *kit.Ctx, id string) {
@@ -510,7 +596,7 @@ func runE2ECase(c *kit.Ctx, id string) {
 		}
 		h.mu.Unlock()
 		c.Count("e2e_insert_calls", rec.calls)
-		c.Max("e2e_max_insert_batch", int64(rec.maxCall))
+		c.Max("max_e2e_insert_batch", int64(rec.maxCall))
 		c.Count("e2e_blocks_imported", rec.height()-sp.PreSynced)
 		c.Count("e2e_blocks_reimported_by_lower_origin", rec.overlap)
 		c.Sample(map[string]interface{}{"spec": sp, "sync_outcomes": outcomes, "imported": rec.height()})
@@ -586,6 +672,9 @@ func runE2ECase(c *kit.Ctx, id string) {
 			kind = "ok"
 		}
 		outcomes = append(outcomes, "honest:"+kind)
+		if kind != "ok" {
+			c.Note(fmt.Sprintf("%s: honest sync attempt %d ended with %q (spec %+v, outcomes %v)", id, attempts, kind, sp, outcomes))
+		}
 		c.Count("e2e_honest_sync_"+kind, 1)
 		if kind == "timeout" || kind == "stalling-peer" {
 			sawTimeout = true
